@@ -488,8 +488,12 @@ def probes_held_suarez(ctx, hs, pe, specs, sh, cs, sc, jnp, units):
       L = grid.total_wavenumbers
       mask = np.asarray(grid.mask)
       vscale = 1e-5 * float(specs.nondimensionalize(1 / units.second))
-      vor = rng.standard_normal(coords.modal_shape) * mask * (ls < L - 2) * (ls > 0) * vscale
-      div = rng.standard_normal(coords.modal_shape) * mask * (ls < L - 2) * (ls > 0) * vscale * 0.1
+      # admissible states: the spare top total wavenumber (last column) is clipped; every second case also has the
+      # next one empty. Energy at the highest retained wavenumber l = L-2 matters: its wind lives at l = L-1, which
+      # compute_diagnostic_state keeps (clip=False) - measured 1.6e-13 on the unchanged tree
+      cut = 1 + (pi % 2)
+      vor = rng.standard_normal(coords.modal_shape) * mask * (ls < L - cut) * (ls > 0) * vscale
+      div = rng.standard_normal(coords.modal_shape) * mask * (ls < L - cut) * (ls > 0) * vscale * 0.1
       tvar = rng.standard_normal(coords.modal_shape) * mask * (ls < L - 1) * 3.0
       amp = [0.05, 0.3][pi % 2]
       lspn = np.log(float(h.p0) * np.exp(amp * np.tanh(rng.standard_normal(grid.nodal_shape))))
@@ -559,4 +563,4 @@ def probes_held_suarez(ctx, hs, pe, specs, sh, cs, sc, jnp, units):
       ctx.expect(np.abs(np.asarray(grid.curl_cos_lat(vel)) - vor).max() <= 1e-9 * zs and
                  np.abs(np.asarray(grid.div_cos_lat(vel)) - div).max() <= 1e-9 * zs,
                  'hyp-wind-roundtrip', '(zeta, delta) -> wind -> (zeta, delta) is not the identity on a state '
-                 'whose top two wavenumbers vanish', inp)
+                 'whose top total wavenumber is clipped', dict(inp, emptied_top_wavenumbers=cut))
